@@ -9,6 +9,11 @@ import MenpoModel.Generated.C05Effects
 namespace MenpoModel.C05.GenProps
 open MenpoModel.C05
 
+/-- measured row `e` is within what the model's row `m` allows -/
+def effSound (e m : EffRow) : Bool :=
+  e.cls == m.cls && e.fviWrites.all (fun b => m.fviWrites.contains b) &&
+  m.fresh.all (fun b => e.fresh.contains b) && e.fvWrites.isEmpty
+
 /-- every concrete Vectorizable class resolves the seven methods exactly as the model assumes -/
 theorem dispatch_ok : Generated.dispatch = expectedDispatch := by decide
 
@@ -19,9 +24,14 @@ theorem dispatch_count : Generated.dispatch.length = 23 := by decide
 writes only into buffers the resolved `copy` makes fresh (receiver purity, see Props/C05.lean) -/
 theorem dispatch_pure : ∀ r ∈ Generated.dispatch, rowPure r = true := by decide
 
-/-- what the live objects do to their arrays (copy freshness, in-place writes, rebindings, sharing between
-receiver and result) is what the model's per-supplier tables predict through the method-resolution table -/
-theorem effects_ok : Generated.effects = expectedEffects := by decide
+/-- what the live objects do to their arrays stays WITHIN what the model allows (one direction only: the
+property does not say which arrays are shared or rebound, so a safer copy or a rebinding supplier must not
+raise an alarm): every array a live `_from_vector_inplace` wrote in place is one the model's supplier may
+write, every array the model takes to be fresh in `copy()` is fresh in the live copy, no `from_vector`
+wrote to its receiver.  (The exact equality `Generated.effects = expectedEffects` is kept as an informational
+drift report in GenProps/C05Drift.lean.) -/
+theorem effects_sound : Generated.effects.length = expectedEffects.length ∧
+    (List.zipWith effSound Generated.effects expectedEffects).all id = true := by decide
 
 /-- measured directly: no `from_vector` changed an array of its receiver, and every array a live
 `_from_vector_inplace` wrote in place is fresh in the live `copy()` of that class -/
